@@ -427,8 +427,8 @@ class ParallelPipelineRunner(PipelineRunner):
                         worker=_verif_connections.index(connection),
                         chunk=chunk_index,
                         reads=number_of_reads,
-                        cur=[w._current_index for w in chunk_writers],
-                        pending=[sorted(w._chunks) for w in chunk_writers],
+                        cur=_verif.writer_state(chunk_writers)[0],
+                        pending=_verif.writer_state(chunk_writers)[1],
                     )
         for writer in chunk_writers:
             assert writer.wrote_everything()
